@@ -22,11 +22,18 @@ pub struct Case {
     pub closed: bool,
     /// measures: 0 distinct real data, 1 all NO_DATA, 2 all NaN, 3 only the first NO_DATA, 4 all -inf
     pub mvar: u8,
+    /// the shape is not constructed but READ from a hand-assembled, size-consistent record whose part start
+    /// array is this one (it need not start at 0, may be empty) over `lens[0]` points; .1: M block present
+    pub foreign: Option<(Vec<i32>, bool)>,
+    /// the record is written through a destination whose operation k fails once with this error kind
+    /// (0 Interrupted, 1 WouldBlock, 2 TimedOut)
+    pub fault: Option<(u8, u64)>,
 }
 
 impl Case {
     pub fn to_json(&self) -> Value {
-        json!({"ty": self.ty.name(), "lens": self.lens, "kinds": self.kinds, "closed": self.closed, "mvar": self.mvar})
+        json!({"ty": self.ty.name(), "lens": self.lens, "kinds": self.kinds, "closed": self.closed, "mvar": self.mvar,
+            "foreign": self.foreign.as_ref().map(|(p, m)| json!({"part_starts": p, "with_m": m})), "fault": self.fault.map(|(k, op)| json!([k, op]))})
     }
     pub fn from_json(v: &Value) -> Option<Case> {
         let arr = |k: &str| -> Option<Vec<u64>> { v.get(k)?.as_array()?.iter().map(|x| x.as_u64()).collect() };
@@ -36,6 +43,14 @@ impl Case {
             kinds: arr("kinds")?.into_iter().map(|x| x as u8).collect(),
             closed: v.get("closed")?.as_bool()?,
             mvar: v.get("mvar").and_then(|x| x.as_u64()).unwrap_or(0) as u8,
+            foreign: match v.get("foreign") {
+                Some(f) if f.is_object() => Some((f.get("part_starts")?.as_array()?.iter().map(|x| x.as_i64().map(|i| i as i32)).collect::<Option<Vec<_>>>()?, f.get("with_m")?.as_bool()?)),
+                _ => None,
+            },
+            fault: match v.get("fault") {
+                Some(Value::Array(a)) if a.len() == 2 => Some((a[0].as_u64()? as u8, a[1].as_u64()?)),
+                _ => None,
+            },
         })
     }
     fn hash(&self) -> u64 {
@@ -78,8 +93,92 @@ pub struct Obs {
     pub short_write_same: bool,
 }
 
+/// A one-record file whose record is assembled by hand: `n` points, the given part start array, sizes consistent.
+pub fn foreign_file(ty: Ty, starts: &[i32], n: usize, with_m: bool) -> Vec<u8> {
+    let mut c: Vec<u8> = vec![];
+    c.extend(ty.code().to_le_bytes());
+    c.extend([0u8; 32]);
+    c.extend((starts.len() as i32).to_le_bytes());
+    c.extend((n as i32).to_le_bytes());
+    for s in starts {
+        c.extend(s.to_le_bytes());
+    }
+    if ty == Ty::Multipatch {
+        for i in 0..starts.len() {
+            c.extend(((i % 6) as i32).to_le_bytes());
+        }
+    }
+    for i in 0..n {
+        c.extend((i as f64).to_le_bytes());
+        c.extend((2.0 * i as f64).to_le_bytes());
+    }
+    if ty.has_z() {
+        c.extend([0u8; 16]);
+        for i in 0..n {
+            c.extend((100.0 + i as f64).to_le_bytes());
+        }
+    }
+    if ty.carries_m() && with_m {
+        c.extend([0u8; 16]);
+        for i in 0..n {
+            c.extend((1000.0 + i as f64).to_le_bytes());
+        }
+    }
+    let mut f = crate::refmodel::codec::encode_header(((100 + 8 + c.len()) / 2) as i32, ty.code(), &[0.0; 8]);
+    f.extend(1i32.to_be_bytes());
+    f.extend(((c.len() / 2) as i32).to_be_bytes());
+    f.extend(c);
+    f
+}
+
+/// None: the reader refuses the hand-assembled record (then there is no shape to speak about)
+pub fn subject(case: &Case) -> Option<shapefile::Shape> {
+    match &case.foreign {
+        None => Some(to_lib(&case.model())),
+        Some((starts, with_m)) => {
+            let f = foreign_file(case.ty, starts, case.lens[0], *with_m);
+            let mut r = shapefile::ShapeReader::new(Dev::quiet(f)).ok()?;
+            let x = r.iter_shapes().next()?;
+            x.ok()
+        }
+    }
+}
+
 pub fn observe(case: &Case) -> Obs {
-    let lib = to_lib(&case.model());
+    let lib = match subject(case) {
+        Some(l) => l,
+        None => return Obs { announced: 0, emitted: 0, header_words: 2, write_ok: true, short_write_same: true },
+    };
+    if let Some((kind, k)) = case.fault {
+        // the record written through a destination of which one operation fails once; when write_shape reports
+        // success the file must be the one an undisturbed destination receives
+        let (announced, emitted, write_ok) = with_concrete!(&lib, s => {
+            let mut buf: Vec<u8> = vec![];
+            let r = s.write_to(&mut buf);
+            (s.size_in_bytes(), buf.len(), r.is_ok())
+        }, unreachable!());
+        let clean = Dev::quiet(vec![]);
+        {
+            let mut w = ShapeWriter::new(clean.clone());
+            write_shape(&mut w, &lib).expect("write");
+            write_shape(&mut w, &lib).expect("write");
+        }
+        let d = Dev::quiet(vec![]);
+        d.set_fault_kind([std::io::ErrorKind::Interrupted, std::io::ErrorKind::WouldBlock, std::io::ErrorKind::TimedOut][kind as usize]);
+        d.fail_at(k, crate::dev::FaultMode::OneShot);
+        let (r1, r2, fired_in_writes);
+        {
+            let mut w = ShapeWriter::new(d.clone());
+            r1 = write_shape(&mut w, &lib).is_ok();
+            r2 = write_shape(&mut w, &lib).is_ok();
+            fired_in_writes = d.faults_fired() > 0;
+        }
+        let b = d.data();
+        // (a fault that only fires during the final drop cannot be reported and leaves the header as it was)
+        let same = !(r1 && r2) || !fired_in_writes || b == clean.data();
+        let header_words = if r1 && b.len() >= 108 { i32::from_be_bytes(b[104..108].try_into().unwrap()) } else { ((emitted + 4) / 2) as i32 };
+        return Obs { announced, emitted, header_words, write_ok, short_write_same: same };
+    }
     let (announced, emitted, write_ok) = with_concrete!(&lib, s => {
         let mut buf: Vec<u8> = vec![];
         let r = s.write_to(&mut buf);
@@ -118,7 +217,11 @@ pub fn judge(case: &Case, o: &Obs) -> Vec<(String, String)> {
         out.push((format!("{}:announced-vs-emitted", tn), format!("size_in_bytes() = {}, write_to emitted {}", o.announced, o.emitted)));
     }
     if !o.short_write_same {
-        out.push((format!("{}:record-differs-under-short-writes", tn), "record header / content differ when the destination accepts 3 resp. 5 bytes per call".into()));
+        if let Some((kind, k)) = case.fault {
+            out.push((format!("{}:record-differs-after-a-reported-success", tn), format!("operation {} of the destination failed once ({}); both write_shape calls returned Ok, yet the file differs from the one an undisturbed destination receives (the stored lengths no longer describe what was emitted)", k, ["Interrupted", "WouldBlock", "TimedOut"][kind as usize])));
+        } else {
+            out.push((format!("{}:record-differs-under-short-writes", tn), "record header / content differ when the destination accepts 3 resp. 5 bytes per call".into()));
+        }
     }
     if o.header_words as i64 * 2 != o.emitted as i64 + 4 {
         out.push((format!("{}:record-header-length", tn), format!("record header says {} words, content is {} + 4 bytes", o.header_words, o.emitted)));
@@ -149,13 +252,13 @@ fn cases(tier: Tier) -> Vec<Case> {
         match ty.family() {
             Family::Point => {
                 for mvar in 0..5u8 {
-                    out.push(Case { ty, lens: vec![1], kinds: vec![0], closed: false, mvar });
+                    out.push(Case { ty, lens: vec![1], kinds: vec![0], closed: false, mvar, foreign: None, fault: None });
                 }
             }
             Family::Multipoint => {
                 for n in (1..=4200).chain([65536, 65537, 70001, 131073]) {
                     for mvar in if n <= 4 { 0..5u8 } else { 0..1u8 } {
-                        out.push(Case { ty, lens: vec![n], kinds: vec![0], closed: false, mvar });
+                        out.push(Case { ty, lens: vec![n], kinds: vec![0], closed: false, mvar, foreign: None, fault: None });
                     }
                 }
             }
@@ -190,7 +293,7 @@ fn cases(tier: Tier) -> Vec<Case> {
                                     continue;
                                 }
                                 for mvar in if ty.carries_m() && p <= 2 { 0..5u8 } else { 0..1u8 } {
-                                    out.push(Case { ty, lens: lens.clone(), kinds: kinds.clone(), closed, mvar });
+                                    out.push(Case { ty, lens: lens.clone(), kinds: kinds.clone(), closed, mvar, foreign: None, fault: None });
                                 }
                             }
                         }
@@ -199,16 +302,52 @@ fn cases(tier: Tier) -> Vec<Case> {
                 // every single-part size up to 4200
                 for n in (maxl + 1)..=4200usize {
                     if n >= min {
-                        out.push(Case { ty, lens: vec![n], kinds: vec![0], closed: false, mvar: 0 });
+                        out.push(Case { ty, lens: vec![n], kinds: vec![0], closed: false, mvar: 0, foreign: None, fault: None });
                     }
                 }
                 // ladder of large shapes
                 for n in [10usize, 100, 1000, 65536, 65537, 70001, 131073] {
-                    out.push(Case { ty, lens: vec![n], kinds: vec![if fam == Family::Multipatch { 0 } else { 0 }], closed: false, mvar: 0 });
+                    out.push(Case { ty, lens: vec![n], kinds: vec![if fam == Family::Multipatch { 0 } else { 0 }], closed: false, mvar: 0, foreign: None, fault: None });
                 }
                 for p in [100usize, 1000] {
-                    out.push(Case { ty, lens: vec![2; p], kinds: (0..p).map(|i| if fam == Family::Multipatch { (i % 6) as u8 } else { (i % 2) as u8 * (fam == Family::Polygon) as u8 }).collect(), closed: false, mvar: 0 });
+                    out.push(Case { ty, lens: vec![2; p], kinds: (0..p).map(|i| if fam == Family::Multipatch { (i % 6) as u8 } else { (i % 2) as u8 * (fam == Family::Polygon) as u8 }).collect(), closed: false, mvar: 0, foreign: None, fault: None });
                 }
+            }
+        }
+    }
+    // shapes READ from hand-assembled records: every ascending part start array of 0..3 entries over 0..=n, n = 0..5
+    for ty in ALL13 {
+        if !ty.is_multipart() {
+            continue;
+        }
+        for n in 0..=5usize {
+            let mut arrays: Vec<Vec<i32>> = vec![vec![]];
+            for len in 1..=3usize {
+                for v in vectors(&(0..=n).collect::<Vec<_>>(), len) {
+                    if v.windows(2).all(|w| w[0] <= w[1]) {
+                        arrays.push(v.iter().map(|x| *x as i32).collect());
+                    }
+                }
+            }
+            for starts in arrays {
+                for with_m in if ty.carries_m() { vec![true, false] } else { vec![true] } {
+                    out.push(Case { ty, lens: vec![n], kinds: vec![0], closed: false, mvar: 0, foreign: Some((starts.clone(), with_m)), fault: None });
+                }
+            }
+        }
+    }
+    // a record written through a destination of which one operation fails once (Interrupted / WouldBlock / TimedOut)
+    for ty in ALL13 {
+        let (lens, kinds): (Vec<usize>, Vec<u8>) = match ty.family() {
+            Family::Point => (vec![1], vec![0]),
+            Family::Multipoint => (vec![3], vec![0]),
+            Family::Multipatch => (vec![3, 4], vec![0, 2]),
+            Family::Polygon => (vec![4, 4], vec![0, 1]),
+            _ => (vec![2, 3], vec![0, 0]),
+        };
+        for kind in 0..3u8 {
+            for k in 0..40u64 {
+                out.push(Case { ty, lens: lens.clone(), kinds: kinds.clone(), closed: false, mvar: 0, foreign: None, fault: Some((kind, k)) });
             }
         }
     }
@@ -216,7 +355,7 @@ fn cases(tier: Tier) -> Vec<Case> {
 }
 
 fn selftest() -> (u64, u64) {
-    let case = Case { ty: Ty::PolygonZ, lens: vec![3, 4], kinds: vec![0, 1], closed: false, mvar: 0 };
+    let case = Case { ty: Ty::PolygonZ, lens: vec![3, 4], kinds: vec![0, 1], closed: false, mvar: 0, foreign: None, fault: None };
     if !judge(&case, &observe(&case)).is_empty() {
         return (1, 0);
     }
@@ -275,7 +414,7 @@ pub fn check(tier: Tier) -> i32 {
             tier,
             level: "model_checking",
             engine: "E2 dense (parts, points-per-part) grid on the real WritableShape::size_in_bytes / write_to and ShapeWriter record header",
-            rule: "13 types x every part-length vector with <= maxp parts and lengths min..=maxl (full product up to 3 parts, {min, min+1, maxl} above) x kind patterns x {open, closed rings}, plus a deterministic ladder (1 x {10,100,1000,65536} points; {100,1000} parts x 2 points); non-trivial = more than one vertex",
+            rule: "13 types x every part-length vector with <= maxp parts and lengths min..=maxl (full product up to 3 parts, {min, min+1, maxl} above) x kind patterns x {open, closed rings}, plus a deterministic ladder (1 x {10,100,1000,65536} points; {100,1000} parts x 2 points); plus shapes READ from hand-assembled size-consistent records (multipart types, 0..5 points, every ascending part start array of 0..3 entries, M block present / absent) whenever the reader accepts them; plus one shape per type written twice through a destination whose operation k (0..40) fails once with Interrupted / WouldBlock / TimedOut: when both writes report success the file equals the undisturbed one; non-trivial = more than one vertex",
             bounds: json!({"max_parts": tier.pick(4, 6), "max_len": tier.pick(5, 8), "cases": cs.len()}),
             exhaustive: true,
             assumptions: vec!["'random larger shapes' of the statement are replaced by the fixed ladder; sizes are affine in (parts, points), the grid pins every coefficient and the constant separately".into()],
